@@ -1,5 +1,13 @@
 import Hms
 import Driver.Decode
+import Driver.CmdsValues
+import Driver.CmdsMembers
+import Driver.CmdsAnalyzer
+import Driver.CmdsHost
+import Driver.CmdsPrint
+import Driver.CmdsTotal
+import Driver.CmdsModules
+import Driver.CmdsCore
 /-! Command table of the driver. Each command is a pure function `String → String`. -/
 namespace Driver
 open Hms
@@ -131,6 +139,12 @@ def dispatch (line : String) : String :=
   | "selfcheck" => cmdSelfCheck p
   | "spec" => cmdSpec p
   | "ping" => "pong"
-  | _ => "BAD-COMMAND"
+  | _ =>
+    let areas : List (String → String → Option String) :=
+      [dispatchValues, dispatchMembers, dispatchAnalyzer, dispatchHost, dispatchPrint, dispatchTotal,
+       dispatchModules, dispatchCore]
+    match areas.findSome? (fun f => f c p) with
+    | some ans => ans
+    | none => "BAD-COMMAND"
 
 end Driver
